@@ -15,10 +15,11 @@ from mc import core, harness
 ID = "C19"
 LEVEL = "exploration"
 TECHNIQUE = "exhaustive enumeration of all realisable quality profiles up to a total, through the real percentage code and both renderers"
-LEVEL_TEXT = ("All realisable 4-category profiles with total lines <= T are enumerated (no sampling) and each is evaluated on the real "
-              "Report object; the rendered summary (text and Markdown) is parsed back for every profile up to the render bound. "
-              "Exhaustive within the bound; percentages depend only on the ratios, so small totals already cover all near-tie shapes.")
-LEVEL_NOTE = "Bound: total <= T (evidence.bounds). 'True share' is computed with exact rational arithmetic (fractions)."
+LEVEL_TEXT = ("Three exhaustive families, no sampling: all realisable profiles with total <= T as real measurement lists; ALL 4-tuples up to "
+              "a total and all one-dominant tuples up to a larger bound, pushed through the real percentage code on one long-lived Report "
+              "(equal totals consecutively); a structured family with one dominant category up to 10^7. The rendered summary (text and "
+              "Markdown) is parsed back and the verdict checked.")
+LEVEL_NOTE = "Bounds in evidence.bounds. 'True share' is exact rational arithmetic. Families 2-3 substitute Report.quality_profile (a one-line sum) to reach tuples no list of function lengths realises - the property quantifies over all 4-tuples."
 
 
 def realisable(kind: int, p: int) -> bool:
